@@ -309,6 +309,7 @@ func (c *TCPConn) Read(b []byte) (int, error) {
 		return 0, net.ErrClosed
 	}
 	if c.closed {
+		vrt.Step("tcp.read(closed)")
 		return 0, opErr("read", "tcp", c.local, c.remote, net.ErrClosed)
 	}
 	if len(b) == 0 {
@@ -347,6 +348,7 @@ func (c *TCPConn) Write(b []byte) (int, error) {
 	total := 0
 	for {
 		if c.closed {
+			vrt.Step("tcp.write(closed)")
 			return total, opErr("write", "tcp", c.local, c.remote, net.ErrClosed)
 		}
 		p := c.peer
@@ -921,6 +923,7 @@ func (u *UDPConn) ReadFromUDP(b []byte) (int, *net.UDPAddr, error) {
 		return 0, nil, net.ErrClosed
 	}
 	if u.closed {
+		vrt.Step("udp.readfrom(closed)")
 		return 0, nil, opErr("read", "udp", u.local, nil, net.ErrClosed)
 	}
 	vrt.WaitUntilOr("udp.readfrom", u,
